@@ -21,7 +21,22 @@ enum Beh {
     Disc,
     Full,
     Other,
+    /// re-entrant: removes peer `.0` from inside `send_notify`, answers Ok
     Rem(u64),
+    /// answers Ok but reports `is_connected() == false`
+    OkDown,
+    /// a sink type that does not override `is_connected` (trait default), answers Ok
+    Plain,
+    /// panics inside `send_notify`: payload String / &'static str / non-string
+    Panic(u8),
+    /// sleeps a few milliseconds, answers Ok
+    Slow,
+    /// re-entrant: aliases its own peer id with the key `r<tag>`, answers Ok
+    AliasSelf,
+    /// re-entrant, once: inserts a new peer (id 1000+tag, sink tag 100000+tag), answers Ok
+    InsNew,
+    /// re-entrant, read-only: len / get_by / peers / aliases_for / key_for, answers Ok
+    Read,
 }
 
 impl Beh {
@@ -31,6 +46,15 @@ impl Beh {
             "disc" => Beh::Disc,
             "full" => Beh::Full,
             "other" => Beh::Other,
+            "okdown" => Beh::OkDown,
+            "plain" => Beh::Plain,
+            "slow" => Beh::Slow,
+            "alias" => Beh::AliasSelf,
+            "ins" => Beh::InsNew,
+            "read" => Beh::Read,
+            "panic:0" => Beh::Panic(0),
+            "panic:1" => Beh::Panic(1),
+            "panic:2" => Beh::Panic(2),
             _ => Beh::Rem(s.strip_prefix("rem:")?.parse().ok()?),
         })
     }
@@ -41,16 +65,41 @@ impl Beh {
             Beh::Full => "full".into(),
             Beh::Other => "other".into(),
             Beh::Rem(x) => format!("rem:{}", x),
+            Beh::OkDown => "okdown".into(),
+            Beh::Plain => "plain".into(),
+            Beh::Panic(k) => format!("panic:{}", k),
+            Beh::Slow => "slow".into(),
+            Beh::AliasSelf => "alias".into(),
+            Beh::InsNew => "ins".into(),
+            Beh::Read => "read".into(),
         }
     }
     fn answer(&self) -> &'static str {
         match self {
-            Beh::Ok | Beh::Rem(_) => "ok",
             Beh::Disc => "Disconnected",
             Beh::Full => "Full",
             Beh::Other => "Other",
+            Beh::Panic(_) => "PANIC",
+            _ => "ok",
         }
     }
+    fn connected(&self) -> bool {
+        !matches!(self, Beh::Disc | Beh::OkDown)
+    }
+}
+
+/// The text an `Other` sink puts into `PeerSendError::Other` (a function of the tag, so replays are exact).
+fn other_text(tag: u64) -> String {
+    match tag % 4 {
+        0 => String::new(),
+        1 => "x".into(),
+        2 => "é".repeat(300),
+        _ => "line\nbreak \u{0} nul".into(),
+    }
+}
+
+fn self_key(tag: u64) -> String {
+    format!("r{}", tag)
 }
 
 #[derive(Clone, Debug)]
@@ -63,39 +112,91 @@ struct Rec {
 
 type Log = Arc<Mutex<Vec<Rec>>>;
 
-/// Capturing sink.  A `Rem` sink re-enters the registry from inside `send_notify`.
+/// Capturing sink.  Re-entrant behaviours call back into the registry from inside `send_notify`.
 struct Sink {
+    id: u64,
     tag: u64,
     beh: Beh,
     log: Log,
     reg: Option<PeerRegistry>,
+    fired: AtomicBool,
 }
 
-impl PeerSink for Sink {
-    fn send_notify(&self, method: &str, body: NotifyBody) -> Result<(), PeerSendError> {
+/// `NotifyBody::as_bytes()` and `into_bytes()` disagreed on some body (twins-agree oracle).
+static TWIN_MISMATCH: AtomicBool = AtomicBool::new(false);
+/// Sinks inserted by coded ops (enumeration / races) are slow.
+static CODED_SLOW: AtomicBool = AtomicBool::new(false);
+
+impl Sink {
+    fn handle_send(&self, method: &str, body: NotifyBody) -> Result<(), PeerSendError> {
         if method == PROBE {
             PROBED.with(|c| c.set(self.tag));
             return Ok(());
         }
         let fmt = body.body_format() as u16;
+        let borrowed = body.as_bytes().to_vec();
         let bytes = body.into_bytes();
+        if borrowed != bytes {
+            TWIN_MISMATCH.store(true, Ordering::SeqCst);
+        }
         self.log.lock().unwrap().push(Rec { tag: self.tag, path: method.to_string(), fmt, body: bytes });
         match self.beh {
-            Beh::Ok => Ok(()),
+            Beh::Ok | Beh::OkDown | Beh::Plain => Ok(()),
             Beh::Disc => Err(PeerSendError::Disconnected),
             Beh::Full => Err(PeerSendError::Full),
-            Beh::Other => Err(PeerSendError::Other("x".into())),
+            Beh::Other => Err(PeerSendError::Other(other_text(self.tag))),
             Beh::Rem(x) => {
                 if let Some(r) = &self.reg {
                     r.remove(PeerId(x));
                 }
                 Ok(())
             }
+            Beh::Panic(0) => panic!("{}", format!("sink {} panics", self.tag)),
+            Beh::Panic(1) => panic!("sink panics"),
+            Beh::Panic(_) => std::panic::panic_any(42u32),
+            Beh::Slow => {
+                std::thread::sleep(Duration::from_micros(200));
+                Ok(())
+            }
+            Beh::AliasSelf => {
+                if let Some(r) = &self.reg {
+                    r.alias(PeerId(self.id), self_key(self.tag));
+                }
+                Ok(())
+            }
+            Beh::InsNew => {
+                if let Some(r) = &self.reg {
+                    if !self.fired.swap(true, Ordering::SeqCst) {
+                        let h = Real::handle(r, &self.log, 1000 + self.tag, 100000 + self.tag, Beh::Ok);
+                        r.insert(h);
+                    }
+                }
+                Ok(())
+            }
+            Beh::Read => {
+                if let Some(r) = &self.reg {
+                    let _ = (r.len(), r.is_empty(), r.peers().len(), r.get_by("a").is_some(), r.aliases_for(PeerId(self.id)).len(), r.key_for(PeerId(self.id)), r.get(PeerId(self.id)).is_some());
+                }
+                Ok(())
+            }
         }
     }
-    /// a sink that answers Disconnected also reports its transport closed
+}
+
+impl PeerSink for Sink {
+    fn send_notify(&self, method: &str, body: NotifyBody) -> Result<(), PeerSendError> {
+        self.handle_send(method, body)
+    }
     fn is_connected(&self) -> bool {
-        self.beh != Beh::Disc
+        self.beh.connected()
+    }
+}
+
+/// Same sink, but `is_connected` is the trait's default.
+struct PlainSink(Sink);
+impl PeerSink for PlainSink {
+    fn send_notify(&self, method: &str, body: NotifyBody) -> Result<(), PeerSendError> {
+        self.0.handle_send(method, body)
     }
 }
 
@@ -151,8 +252,13 @@ impl Real {
         Real { reg: PeerRegistry::new(), log: Arc::new(Mutex::new(Vec::new())), inserted: Vec::new() }
     }
     fn handle(reg: &PeerRegistry, log: &Log, id: u64, tag: u64, beh: Beh) -> PeerHandle {
-        let r = if matches!(beh, Beh::Rem(_)) { Some(reg.clone()) } else { None };
-        PeerHandle::new(PeerId(id), Arc::new(Sink { tag, beh, log: log.clone(), reg: r }))
+        let r = if matches!(beh, Beh::Rem(_) | Beh::AliasSelf | Beh::InsNew | Beh::Read) { Some(reg.clone()) } else { None };
+        let sink = Sink { id, tag, beh, log: log.clone(), reg: r, fired: AtomicBool::new(false) };
+        if beh == Beh::Plain {
+            PeerHandle::new(PeerId(id), Arc::new(PlainSink(sink)))
+        } else {
+            PeerHandle::new(PeerId(id), Arc::new(sink))
+        }
     }
     fn ins(&mut self, id: u64, tag: u64, beh: Beh) -> &'static str {
         let h = Real::handle(&self.reg, &self.log, id, tag, beh);
@@ -166,14 +272,28 @@ impl Real {
     fn rem(&self, id: u64) -> String {
         show_handle(self.reg.remove(PeerId(id)))
     }
-    fn alias(&self, id: u64, khex: &str) -> &'static str {
-        if self.reg.alias(PeerId(id), key_of_hex(khex)) { "T" } else { "F" }
+    /// `via`: which `Into<String>` type carries the key (0 String, 1 &str, 2 Cow, 3 Box<str>, 4 char when one char)
+    fn alias(&self, id: u64, khex: &str, via: u8) -> &'static str {
+        let k = key_of_hex(khex);
+        let r = match via {
+            1 => self.reg.alias(PeerId(id), k.as_str()),
+            2 => self.reg.alias(PeerId(id), std::borrow::Cow::Borrowed(k.as_str())),
+            3 => self.reg.alias(PeerId(id), k.clone().into_boxed_str()),
+            4 if k.chars().count() == 1 => self.reg.alias(PeerId(id), k.chars().next().unwrap()),
+            _ => self.reg.alias(PeerId(id), k),
+        };
+        if r { "T" } else { "F" }
     }
     fn get(&self, id: u64) -> String {
         show_handle(self.reg.get(PeerId(id)))
     }
     fn getby(&self, khex: &str) -> String {
-        show_handle(self.reg.get_by(key_of_hex(khex).as_str()))
+        self.getby_via(khex, 0)
+    }
+    /// `via`: the borrowed form of the key (0 &str, 1 &String)
+    fn getby_via(&self, khex: &str, via: u8) -> String {
+        let k = key_of_hex(khex);
+        show_handle(if via == 1 { self.reg.get_by::<String>(&k) } else { self.reg.get_by(k.as_str()) })
     }
     fn keyfor(&self, id: u64) -> String {
         self.reg.key_for(PeerId(id)).map(|k| hex(k.as_bytes())).unwrap_or_else(|| "-".into())
@@ -432,7 +552,8 @@ fn spec_apply(s: &mut Spec, tag: u64, op: EOp) -> Option<String> {
 fn real_apply(reg: &PeerRegistry, log: &Log, tag: u64, op: EOp, keys: &[String], bcast_body: &[u8]) -> String {
     match op {
         EOp::Ins(p) => {
-            let h = Real::handle(reg, log, p, tag, Beh::Ok);
+            let beh = if CODED_SLOW.load(Ordering::Relaxed) { Beh::Slow } else { Beh::Ok };
+            let h = Real::handle(reg, log, p, tag, beh);
             match catch(|| reg.insert(h)) {
                 Ok(()) => "u".into(),
                 Err(_) => "PANIC".into(),
@@ -488,6 +609,7 @@ fn fnv_step(mut h: u64, s: &str) -> u64 {
 
 struct EnumCtx {
     keys: Vec<String>,
+    alphabet: Vec<u8>,
     nodes: u64,
     nontrivial: u64,
     fails: Vec<Fail>,
@@ -541,7 +663,7 @@ fn hash_sub(ctx: &mut EnumCtx, fuel: usize, path: &mut Vec<EOp>, pathstr: &mut S
     if fuel == 0 {
         return h;
     }
-    for c in 0..15u8 {
+    for c in ctx.alphabet.clone() {
         let op = eop_of_code(c).unwrap();
         let mut s2 = spec.clone();
         if let Some(sret) = spec_apply(&mut s2, (path.len() + 1) as u64, op) {
@@ -561,7 +683,7 @@ fn enum_emit(ctx: &mut EnumCtx, idx: &str, fold: usize, fuel: usize, path: &mut 
     if fuel == 0 {
         return;
     }
-    for c in 0..15u8 {
+    for c in ctx.alphabet.clone() {
         let op = eop_of_code(c).unwrap();
         let mut s2 = spec.clone();
         if let Some(sret) = spec_apply(&mut s2, (path.len() + 1) as u64, op) {
@@ -581,7 +703,7 @@ fn enum_emit(ctx: &mut EnumCtx, idx: &str, fold: usize, fuel: usize, path: &mut 
 }
 
 /// `enum <idx> <depth> <fold> <prefix>`: the subtrees of the first level run on worker threads.
-fn run_enum(idx: &str, depth: usize, fold: usize, prefix: &str, threads: usize) -> Option<(Vec<String>, u64, u64, Vec<Fail>)> {
+fn run_enum(idx: &str, depth: usize, fold: usize, prefix: &str, alphabet: &[u8], threads: usize) -> Option<(Vec<String>, u64, u64, Vec<Fail>)> {
     let pre = eops_of_str(prefix)?;
     let mut spec = Spec::default();
     for (i, op) in pre.iter().enumerate() {
@@ -598,12 +720,13 @@ fn run_enum(idx: &str, depth: usize, fold: usize, prefix: &str, threads: usize) 
     std::thread::scope(|sc| {
         for _ in 0..threads.max(1) {
             sc.spawn(|| loop {
-                let c = next.fetch_add(1, Ordering::SeqCst);
-                if c >= 15 {
+                let ci = next.fetch_add(1, Ordering::SeqCst);
+                if ci >= alphabet.len() {
                     break;
                 }
+                let c = alphabet[ci] as usize;
                 let op = eop_of_code(c as u8).unwrap();
-                let mut ctx = EnumCtx { keys: enum_keys(), nodes: 0, nontrivial: 0, fails: vec![] };
+                let mut ctx = EnumCtx { keys: enum_keys(), alphabet: alphabet.to_vec(), nodes: 0, nontrivial: 0, fails: vec![] };
                 let mut out = Vec::new();
                 let mut s2 = spec.clone();
                 let mut path = pre.clone();
@@ -619,7 +742,7 @@ fn run_enum(idx: &str, depth: usize, fold: usize, prefix: &str, threads: usize) 
                     out.push(line);
                     enum_emit(&mut ctx, idx, fold, levels - 1, &mut path, &mut pathstr, &s2, &mut out);
                 }
-                results.lock().unwrap().insert(c, (out, ctx.nodes, ctx.nontrivial, ctx.fails));
+                results.lock().unwrap().insert(ci, (out, ctx.nodes, ctx.nontrivial, ctx.fails));
             });
         }
     });
@@ -813,11 +936,12 @@ struct Sess {
     behs: BTreeMap<u64, Beh>,
     history: Vec<String>,
     minted: u64,
+    fired: BTreeSet<u64>,
 }
 
 impl Sess {
     fn new() -> Sess {
-        Sess { real: Real::new(), spec: Spec::default(), ids: BTreeSet::new(), keys: BTreeSet::new(), behs: BTreeMap::new(), history: vec![], minted: 0 }
+        Sess { real: Real::new(), spec: Spec::default(), ids: BTreeSet::new(), keys: BTreeSet::new(), behs: BTreeMap::new(), history: vec![], minted: 0, fired: BTreeSet::new() }
     }
     fn universe(&self) -> (Vec<u64>, Vec<String>) {
         (self.ids.iter().cloned().collect(), self.keys.iter().cloned().collect())
@@ -835,11 +959,52 @@ fn debug_mode() -> &'static str {
 }
 
 /// Execute one op line. Returns (op line as recorded, observation, nontrivial).
+/// Re-entrant sinks: what the sink with `tag` (wrapped by peer `id`'s handle) does to the registry when it is
+/// sent to, applied to the harness specification.  All of these commute, so the order in which a
+/// broadcast reaches the sinks does not matter for the final state.
+fn fire_spec(out: &mut Out, se: &mut Sess, id: u64, tag: u64) {
+    match se.behs.get(&tag).copied() {
+        Some(Beh::Rem(x)) => {
+            se.spec.remove(x);
+            out.count("reentrant.remove");
+        }
+        Some(Beh::AliasSelf) => {
+            let k = hex(self_key(tag).as_bytes());
+            se.spec.alias(id, &k);
+            se.keys.insert(k);
+            out.count("reentrant.alias");
+        }
+        Some(Beh::InsNew) => {
+            if se.fired.insert(tag) {
+                se.spec.insert(1000 + tag, 100000 + tag);
+                se.behs.insert(100000 + tag, Beh::Ok);
+                se.ids.insert(1000 + tag);
+                se.real.inserted.push(1000 + tag);
+                out.count("reentrant.insert");
+            }
+        }
+        Some(Beh::Read) => out.count("reentrant.read"),
+        _ => {}
+    }
+}
+
 fn exec(out: &mut Out, se: &mut Sess, cfg: &Cfg, line: &str) -> (String, String, bool) {
-    let w = words(line);
+    // `via=<n>` (which generic instantiation carries the key / path) and `on=clone` (run this call on a
+    // fresh clone of the registry) are parameters of the harness only; the model ignores them
+    let mut via: u8 = 0;
+    let mut w: Vec<&str> = Vec::new();
+    for t in words(line) {
+        if let Some(v) = t.strip_prefix("via=") {
+            via = v.parse().unwrap_or(0);
+        } else if t == "on=clone" {
+            se.real.reg = se.real.reg.clone();
+        } else {
+            w.push(t);
+        }
+    }
     let idx = w.get(1).copied().unwrap_or("?").to_string();
     let bad = |l: &str| (l.to_string(), format!("{} bad-op", idx), false);
-    if !matches!(w[0], "enum" | "conc") {
+    if !matches!(w[0], "enum" | "conc" | "concs") {
         se.history.push(line.to_string());
     }
     let check_ret = |out: &mut Out, se: &Sess, name: &str, imp: &str, want: &str| {
@@ -850,6 +1015,9 @@ fn exec(out: &mut Out, se: &mut Sess, cfg: &Cfg, line: &str) -> (String, String,
     match w[0] {
         "reset" => {
             *se = Sess::new();
+            if via == 1 {
+                se.real.reg = PeerRegistry::default();
+            }
             se.history.push(line.to_string());
             (line.to_string(), format!("{} ok", idx), false)
         }
@@ -880,7 +1048,7 @@ fn exec(out: &mut Out, se: &mut Sess, cfg: &Cfg, line: &str) -> (String, String,
             let Ok(id) = w[2].parse::<u64>() else { return bad(line) };
             se.ids.insert(id);
             se.keys.insert(w[3].to_string());
-            let r = se.real.alias(id, w[3]);
+            let r = se.real.alias(id, w[3], via);
             let (ok, branch) = se.spec.alias(id, w[3]);
             out.count(branch);
             check_ret(out, se, "alias", r, if ok { "T" } else { "F" });
@@ -897,7 +1065,7 @@ fn exec(out: &mut Out, se: &mut Sess, cfg: &Cfg, line: &str) -> (String, String,
         }
         "getby" if w.len() == 3 => {
             se.keys.insert(w[2].to_string());
-            let r = se.real.getby(w[2]);
+            let r = se.real.getby_via(w[2], via);
             let want = se.spec.getby(w[2]);
             out.count(if want == "-" { "getby.none" } else { "getby.some" });
             check_ret(out, se, "get_by", &r, &want);
@@ -935,6 +1103,20 @@ fn exec(out: &mut Out, se: &mut Sess, cfg: &Cfg, line: &str) -> (String, String,
             if d != sd {
                 out.oracle_fail(&format!("peers.state.{}", digest_diff(&d, &sd)), &format!("registry answers {} but the specification says {}", d, sd), &se.history);
             }
+            // twins agree (both sides from the registry itself, independent of the specification)
+            for i in &ids {
+                let first = se.real.reg.aliases_for(PeerId(*i)).first().cloned();
+                if se.real.reg.key_for(PeerId(*i)) != first {
+                    out.oracle_fail("peers.twins.key_for", &format!("key_for({}) is not the first element of aliases_for({})", i, i), &se.history);
+                }
+            }
+            let mut snap: Vec<u64> = se.real.reg.peers().iter().map(|h| h.peer_id().0).collect();
+            snap.sort();
+            let mut via_get: Vec<u64> = ids.iter().cloned().filter(|i| se.real.reg.get(PeerId(*i)).is_some()).collect();
+            via_get.sort();
+            if snap != via_get || snap.len() != se.real.len() {
+                out.oracle_fail("peers.twins.peers", &format!("peers() lists {:?}, get() finds {:?}, len() = {}", snap, via_get, se.real.len()), &se.history);
+            }
             if se.real.reg.is_empty() != (se.real.len() == 0) {
                 out.oracle_fail("peers.state.is_empty", "is_empty() disagrees with len()", &se.history);
             }
@@ -951,35 +1133,63 @@ fn exec(out: &mut Out, se: &mut Sess, cfg: &Cfg, line: &str) -> (String, String,
             // re-entrant sink, which must become a report, not a hang
             let (tx, rx) = std::sync::mpsc::channel();
             let (variant_s, path_s, body_s) = (variant.to_string(), path.clone(), body.clone());
+            type BRes = (Vec<(u64, &'static str)>, Vec<(u64, String)>);
             std::thread::spawn(move || {
-                let r: Result<Result<Vec<(u64, &'static str)>, String>, String> = catch(|| {
-                    let res = match variant_s.as_str() {
-                        "raw" => {
+                let r: Result<Result<BRes, String>, String> = catch(|| {
+                    let res = match (variant_s.as_str(), via) {
+                        ("raw", v) => {
                             let f = BodyFormat::try_from(fmt).map_err(|_| "fmt".to_string())?;
-                            reg.broadcast_notify_raw(&path_s, f, &body_s)
+                            match v {
+                                1 => reg.broadcast_notify_raw(path_s.as_str(), f, &body_s),
+                                2 => reg.broadcast_notify_raw(path_s.clone(), f, &body_s),
+                                3 => reg.broadcast_notify_raw(std::borrow::Cow::Borrowed(path_s.as_str()), f, &body_s),
+                                _ => reg.broadcast_notify_raw(&path_s, f, &body_s),
+                            }
                         }
-                        "utf8" => reg.broadcast_notify_utf8(&path_s, String::from_utf8(body_s.clone()).map_err(|_| "utf8".to_string())?),
-                        "json" => {
-                            let v: serde_json::Value = serde_json::from_slice(&body_s).map_err(|_| "json".to_string())?;
-                            reg.broadcast_notify_json(&path_s, &v).map_err(|_| "encode".to_string())?
+                        ("utf8", v) => {
+                            let text = String::from_utf8(body_s.clone()).map_err(|_| "utf8".to_string())?;
+                            match v {
+                                1 => reg.broadcast_notify_utf8(path_s.as_str(), text.as_str()),
+                                2 => reg.broadcast_notify_utf8(path_s.clone(), std::borrow::Cow::Borrowed(text.as_str())),
+                                _ => reg.broadcast_notify_utf8(&path_s, text),
+                            }
                         }
-                        "beve" => {
-                            let v: serde_json::Value = serde_json::from_slice(src.as_deref().unwrap_or(b"null")).map_err(|_| "json".to_string())?;
-                            reg.broadcast_notify_beve(&path_s, &v).map_err(|_| "encode".to_string())?
+                        ("json", v) => {
+                            let val: serde_json::Value = serde_json::from_slice(&body_s).map_err(|_| "json".to_string())?;
+                            match (v, val.as_str()) {
+                                // unsized `T = str`
+                                (1, Some(t)) => reg.broadcast_notify_json::<_, str>(path_s.as_str(), t).map_err(|_| "encode".to_string())?,
+                                _ => reg.broadcast_notify_json(&path_s, &val).map_err(|_| "encode".to_string())?,
+                            }
+                        }
+                        ("beve", _) => {
+                            let val: serde_json::Value = serde_json::from_slice(src.as_deref().unwrap_or(b"null")).map_err(|_| "json".to_string())?;
+                            reg.broadcast_notify_beve(&path_s, &val).map_err(|_| "encode".to_string())?
                         }
                         _ => return Err("variant".to_string()),
                     };
                     let mut v: Vec<(u64, &'static str)> = res.iter().map(|(k, r)| (k.0, send_class(r))).collect();
                     v.sort();
-                    Ok(v)
+                    let mut texts: Vec<(u64, String)> = res.iter().filter_map(|(k, r)| if let Err(PeerSendError::Other(t)) = r { Some((k.0, t.clone())) } else { None }).collect();
+                    texts.sort();
+                    Ok((v, texts))
                 });
                 let _ = tx.send(r);
             });
-            let got = match rx.recv_timeout(Duration::from_secs(30)) {
+            let mut present: Vec<(u64, u64)> = se.spec.peers.iter().map(|p| (p.id, p.tag)).collect();
+            present.sort();
+            let panicky = present.iter().any(|(_, t)| matches!(se.behs.get(t), Some(Beh::Panic(_))));
+            let (got, texts) = match rx.recv_timeout(Duration::from_secs(30)) {
                 Ok(Ok(Ok(v))) => v,
                 Ok(Ok(Err(_))) => return bad(line),
                 Ok(Err(_)) => {
-                    out.oracle_fail("peers.bcast.panic", "broadcast panicked", &se.history);
+                    // the property says nothing about what a broadcast does when a sink panics; it is only
+                    // a report when no present sink was one that panics.  The registry itself must be
+                    // untouched either way (the `dump` that follows checks that).
+                    if !panicky {
+                        out.oracle_fail("peers.bcast.panic", "broadcast panicked although no sink did", &se.history);
+                    }
+                    out.count("bcast.sink_panics");
                     return (line.to_string(), format!("{} PANIC", idx), false);
                 }
                 Err(_) => {
@@ -987,14 +1197,17 @@ fn exec(out: &mut Out, se: &mut Sess, cfg: &Cfg, line: &str) -> (String, String,
                     return (line.to_string(), format!("{} STUCK", idx), false);
                 }
             };
+            if panicky {
+                // a sink panicked and the broadcast swallowed it: not the property's business, but the
+                // model predicts PANIC (unwinding out of broadcast_each), so this shows as a disagreement
+                return (line.to_string(), format!("{} swallowed-panic", idx), false);
+            }
             let want_fmt: u16 = match variant { "json" => 2, "beve" => 1, "utf8" => 3, _ => fmt };
             let mut log = se.real.log.lock().unwrap().clone();
             log.sort_by_key(|r| {
                 se.spec.peers.iter().find(|p| p.tag == r.tag).map(|p| p.id).unwrap_or(u64::MAX)
             });
             // direct oracle: one notification with the given path/body/format per present peer, one result per peer
-            let mut present: Vec<(u64, u64)> = se.spec.peers.iter().map(|p| (p.id, p.tag)).collect();
-            present.sort();
             let mut got_tags: Vec<u64> = log.iter().map(|r| r.tag).collect();
             got_tags.sort();
             let mut want_tags: Vec<u64> = present.iter().map(|p| p.1).collect();
@@ -1003,22 +1216,32 @@ fn exec(out: &mut Out, se: &mut Sess, cfg: &Cfg, line: &str) -> (String, String,
                 out.oracle_fail("peers.bcast.deliveries", &format!("present peers' sinks {:?}, sinks that received the notification {:?}", want_tags, got_tags), &se.history);
             }
             if log.iter().any(|r| r.path != path || r.body != body || r.fmt != want_fmt) {
-                out.oracle_fail("peers.bcast.content", "a sink received a different path, body or format than the caller gave", &se.history);
+                let bad_r = log.iter().find(|r| r.path != path || r.body != body || r.fmt != want_fmt).unwrap();
+                out.oracle_fail("peers.bcast.content", &format!("a sink received a different path, body or format than the caller gave: path {} bytes (given {}), body {} bytes (given {}), format {} (given {})", bad_r.path.len(), path.len(), bad_r.body.len(), body.len(), bad_r.fmt, want_fmt), &se.history);
             }
             let want_res: Vec<(u64, &'static str)> = present.iter().map(|(id, tag)| (*id, se.behs.get(tag).map(|b| b.answer()).unwrap_or("ok"))).collect();
             if got != want_res {
                 out.oracle_fail("peers.bcast.results", &format!("result map {:?}, expected one result per present peer {:?}", got, want_res), &se.history);
             }
+            let want_texts: Vec<(u64, String)> = present.iter().filter(|(_, t)| se.behs.get(t) == Some(&Beh::Other)).map(|(id, t)| (*id, other_text(*t))).collect();
+            if got == want_res && texts != want_texts {
+                out.oracle_fail("peers.bcast.result_value", "the result reported for a peer is not the error its sink returned", &se.history);
+            }
+            if TWIN_MISMATCH.load(Ordering::SeqCst) {
+                out.oracle_fail("peers.body.twins", "NotifyBody::as_bytes() and into_bytes() disagree", &se.history);
+                TWIN_MISMATCH.store(false, Ordering::SeqCst);
+            }
             // re-entrant sinks have fired
-            for (_, tag) in &present {
-                if let Some(Beh::Rem(x)) = se.behs.get(tag) {
-                    se.spec.remove(*x);
-                    out.count("bcast.reentrant_remove");
-                }
+            for (id, tag) in &present {
+                fire_spec(out, se, *id, *tag);
             }
             out.count(&format!("bcast.{}.peers{}", variant, present.len().min(4)));
+            out.count(&format!("bcast.body.{}", match body.len() { 0 => "0", 1..=255 => "1-255", 256..=4095 => "256-4095", 4096..=65534 => "4096-65534", _ => ">=65535" }));
+            out.count(&format!("bcast.path.{}", match path.len() { 0 => "0", 1..=255 => "1-255", _ => ">255" }));
             let id_of = |tag: u64| present.iter().find(|p| p.1 == tag).map(|p| p.0.to_string()).unwrap_or_else(|| "?".into());
-            let sent = if log.is_empty() { "-".to_string() } else { log.iter().map(|r| format!("{}/{}:{}:{}:{}", id_of(r.tag), r.tag, hex(r.path.as_bytes()), r.fmt, hex(&r.body))).collect::<Vec<_>>().join(",") };
+            let eqp = |x: &str| if x == path { "=".to_string() } else { hex(x.as_bytes()) };
+            let eqb = |x: &[u8]| if x == &body[..] { "=".to_string() } else { hex(x) };
+            let sent = if log.is_empty() { "-".to_string() } else { log.iter().map(|r| format!("{}/{}:{}:{}:{}", id_of(r.tag), r.tag, eqp(&r.path), r.fmt, eqb(&r.body))).collect::<Vec<_>>().join(",") };
             let res = if got.is_empty() { "-".to_string() } else { got.iter().map(|(i, r)| format!("{}={}", i, r)).collect::<Vec<_>>().join(",") };
             (line.to_string(), format!("{} sent {} res {}", idx, sent, res), !present.is_empty())
         }
@@ -1079,19 +1302,33 @@ fn exec(out: &mut Out, se: &mut Sess, cfg: &Cfg, line: &str) -> (String, String,
                 }
                 Some(h) => {
                     se.real.log.lock().unwrap().clear();
-                    let r = h.send_notify(&path, nb);
-                    let log = se.real.log.lock().unwrap().clone();
                     let tag = se.spec.find(id).map(|p| p.tag).unwrap_or(u64::MAX);
                     let beh = se.behs.get(&tag).copied().unwrap_or(Beh::Ok);
+                    let path2 = path.clone();
+                    let r = match catch(move || h.send_notify(&path2, nb)) {
+                        Ok(r) => r,
+                        Err(_) => {
+                            if !matches!(beh, Beh::Panic(_)) {
+                                out.oracle_fail("peers.handle.panic", "PeerHandle::send_notify panicked although the sink did not", &se.history);
+                            }
+                            return (line.to_string(), format!("{} PANIC", idx), false);
+                        }
+                    };
+                    let log = se.real.log.lock().unwrap().clone();
                     // direct oracle: PeerHandle::send_notify hands exactly this call to its own sink
                     let ok = log.len() == 1 && log[0].tag == tag && log[0].path == path && log[0].fmt == want_fmt && log[0].body == body && send_class(&r) == beh.answer();
                     if !ok {
-                        out.oracle_fail("peers.handle.send_notify", &format!("sink log {:?}, result {}", log, send_class(&r)), &se.history);
+                        out.oracle_fail("peers.handle.send_notify", &format!("sink log {:?}, result {}", log.iter().map(|r| (r.tag, r.path.len(), r.fmt, r.body.len())).collect::<Vec<_>>(), send_class(&r)), &se.history);
                     }
-                    if let Beh::Rem(x) = beh {
-                        se.spec.remove(x);
+                    if let (Beh::Other, Err(PeerSendError::Other(t))) = (beh, &r) {
+                        if *t != other_text(tag) {
+                            out.oracle_fail("peers.handle.result_value", "PeerHandle::send_notify did not return the sink's error", &se.history);
+                        }
                     }
-                    let l = log.first().map(|r| format!("{}/{}:{}:{}:{}", id, r.tag, hex(r.path.as_bytes()), r.fmt, hex(&r.body))).unwrap_or_else(|| "nolog".into());
+                    fire_spec(out, se, id, tag);
+                    let eqp = |x: &str| if x == path { "=".to_string() } else { hex(x.as_bytes()) };
+                    let eqb = |x: &[u8]| if x == &body[..] { "=".to_string() } else { hex(x) };
+                    let l = log.first().map(|r| format!("{}/{}:{}:{}:{}", id, r.tag, eqp(&r.path), r.fmt, eqb(&r.body))).unwrap_or_else(|| "nolog".into());
                     (line.to_string(), format!("{} {} {}", idx, l, send_class(&r)), true)
                 }
             }
@@ -1105,13 +1342,13 @@ fn exec(out: &mut Out, se: &mut Sess, cfg: &Cfg, line: &str) -> (String, String,
                 Some(h) => {
                     if w[0] == "hconn" {
                         let tag = se.spec.find(id).map(|p| p.tag).unwrap_or(u64::MAX);
-                        let want = se.behs.get(&tag).copied().unwrap_or(Beh::Ok) != Beh::Disc;
+                        let want = se.behs.get(&tag).copied().unwrap_or(Beh::Ok).connected();
                         if h.is_connected() != want {
                             out.oracle_fail("peers.handle.is_connected", "PeerHandle::is_connected does not forward the sink's answer", &se.history);
                         }
                         (line.to_string(), format!("{} {}", idx, if h.is_connected() { "T" } else { "F" }), true)
                     } else {
-                        (line.to_string(), format!("{} {}", idx, format!("{:?}", h).replace(' ', "")), true)
+                        (line.to_string(), format!("{} {}|{}", idx, format!("{:?}", h).replace(' ', ""), h.peer_id()), true)
                     }
                 }
             }
@@ -1161,9 +1398,15 @@ fn exec(out: &mut Out, se: &mut Sess, cfg: &Cfg, line: &str) -> (String, String,
             }
             (line.to_string(), format!("{} {} sent {}", idx, if r { "err" } else { "ok" }, if n == 0 { "-".to_string() } else { n.to_string() }), !se.spec.peers.is_empty())
         }
-        "enum" if w.len() == 5 => {
+        "enum" if w.len() == 5 || w.len() == 6 => {
             let (Ok(depth), Ok(fold)) = (w[2].parse::<usize>(), w[3].parse::<usize>()) else { return bad(line) };
-            match run_enum(&idx, depth, fold, w[4], cfg.threads) {
+            // optional 6th token: the alphabet of coded ops (default a..o = insert/remove/alias)
+            let alphabet: Vec<u8> = match w.get(5) {
+                Some(a) if a.bytes().all(|b| (97..123).contains(&b)) => a.bytes().map(|b| b - 97).collect(),
+                Some(_) => return bad(line),
+                None => (0..15u8).collect(),
+            };
+            match run_enum(&idx, depth, fold, w[4], &alphabet, cfg.threads) {
                 Some((lines, nodes, nt, fails)) => {
                     for f in fails {
                         out.oracle_fail(&f.sig, &f.detail, &f.ops);
@@ -1176,7 +1419,10 @@ fn exec(out: &mut Out, se: &mut Sess, cfg: &Cfg, line: &str) -> (String, String,
                 None => bad(line),
             }
         }
-        "conc" if w.len() >= 4 => {
+        "conc" | "concs" if w.len() >= 4 => {
+            // `concs`: the sinks of the peers inserted by this spec are slow (a few ms per send), which keeps a
+            // broadcast between its snapshot and its sends while the other threads run
+            CODED_SLOW.store(w[0] == "concs", Ordering::SeqCst);
             let Some(setup) = eops_of_str(w[2]) else { return bad(line) };
             let mut progs = Vec::new();
             for t in &w[3..] {
@@ -1193,6 +1439,7 @@ fn exec(out: &mut Out, se: &mut Sess, cfg: &Cfg, line: &str) -> (String, String,
                 }
             }
             let res = run_conc(&setup, &progs, cfg.conc_reps, cfg.conc_budget);
+            CODED_SLOW.store(false, Ordering::SeqCst);
             let spec_line: Vec<&str> = w.iter().take_while(|x| **x != "::").cloned().collect();
             let head = spec_line.join(" ");
             if res.stuck {
@@ -1312,130 +1559,223 @@ fn gen_json(rng: &mut Rng, depth: u32) -> serde_json::Value {
     }
 }
 
-fn gen_history(rng: &mut Rng, n: &mut usize, len: usize, ops: &mut Vec<String>) {
+/// Boundary-biased length of a body / text / path.
+fn gen_len(rng: &mut Rng, thorough: bool) -> usize {
+    match rng.below(40) {
+        0..=15 => rng.below(5) as usize,
+        16 => 0,
+        17 => 1,
+        18 => 255,
+        19 => 256,
+        20 => 4095,
+        21 => 4096,
+        22 => 65535,
+        23 => 65536,
+        24 => 65537,
+        25 => if thorough { 1 << 20 } else { 70001 },
+        26..=30 => rng.range(300, 3000) as usize,
+        _ => rng.below(64) as usize,
+    }
+}
+
+fn gen_path(rng: &mut Rng) -> String {
+    match rng.below(24) {
+        0 => "/p".repeat(150),                  // 300 bytes
+        1 => format!("/{}", "é".repeat(200)),   // > 255 bytes, non-ASCII
+        2 => "/x".repeat(35000),                // 70 000 bytes
+        3 => "/a\u{0}b".to_string(),
+        4 => "/".repeat(256),
+        _ => rng.pick(&["/state/changed", "", "/a b", "/é", "/x/~1y", "/"]).to_string(),
+    }
+}
+
+/// The generator's own bookkeeping of what a sink does when it is sent to (same rules as `fire_spec`).
+fn gen_fire(spec: &mut Spec, behs: &mut BTreeMap<u64, Beh>, fired: &mut BTreeSet<u64>, id: u64, tag: u64) -> bool {
+    match behs.get(&tag).copied() {
+        Some(Beh::Rem(x)) => {
+            spec.remove(x);
+            true
+        }
+        Some(Beh::AliasSelf) => {
+            spec.alias(id, &hex(self_key(tag).as_bytes()));
+            true
+        }
+        Some(Beh::InsNew) => {
+            if fired.insert(tag) {
+                spec.insert(1000 + tag, 100000 + tag);
+                behs.insert(100000 + tag, Beh::Ok);
+            }
+            true
+        }
+        _ => false,
+    }
+}
+
+fn gen_history(rng: &mut Rng, n: &mut usize, len: usize, thorough: bool, ops: &mut Vec<String>) {
     let id_pool: [u64; 9] = [0, 1, 2, 3, 7, 1 << 32, u64::MAX - 1, u64::MAX, 42];
-    let key_pool: [&str; 12] = ["", "a", "b", "ab", "a/b", "k0", "é", "日本", " ", "a\u{0}b", "session-abc123", "aaaaaaaaaaaaaaaaaaaaaaaaaaaaaaaaaaaaaaaaaaaaaaaaaaaaaaaaaaaaaaaaaaaaaaaaaaaaaaaaaaaaaaaaaaaaaaaaaaaaaaaaaaaaaaaaaaaaaaaaaaaaaaaaaaaaaaaaaaaaaaaaaaaa"];
+    let long_a = "a".repeat(150);
+    let long_k = "k".repeat(1100);
+    let key_pool: Vec<&str> = vec!["", "a", "b", "ab", "a/b", "k0", "é", "e\u{301}", "日本", " ", "a ", "A", "B", "a\u{0}b", "\u{feff}a", "session-abc123", "Session-ABC123", &long_a];
     let mut ids: Vec<u64> = id_pool.to_vec();
     rng.shuffle(&mut ids);
     ids.truncate(rng.range(2, 5) as usize);
     let mut keys: Vec<String> = key_pool.iter().map(|k| hex(k.as_bytes())).collect();
     rng.shuffle(&mut keys);
     keys.truncate(rng.range(2, 5) as usize);
+    let mut len = len;
+    match rng.below(40) {
+        0..=3 => keys.push(hex(long_k.as_bytes())), // > 1 KiB key
+        4 => {
+            keys.push(hex("K".repeat(70000).as_bytes())); // > 64 KiB key: short history, every dump prints it
+            len = len.min(25);
+        }
+        _ => {}
+    }
+    // keys that differ only in case / normalisation must stay different keys
+    if rng.chance(1, 3) {
+        for (x, y) in [("a", "A"), ("é", "e\u{301}"), ("a", "a "), ("session-abc123", "Session-ABC123")] {
+            if keys.contains(&hex(x.as_bytes())) && !keys.contains(&hex(y.as_bytes())) {
+                keys.push(hex(y.as_bytes()));
+            }
+        }
+    }
+    // a history either has sinks that panic or sinks that call back into the registry, never both: which
+    // sinks of a broadcast ran before the panic depends on the map's iteration order
+    let panicky = rng.chance(1, 8);
     let mut spec = Spec::default();
     let mut behs: BTreeMap<u64, Beh> = BTreeMap::new();
+    let mut fired: BTreeSet<u64> = BTreeSet::new();
     let mut tag = 0u64;
     let next = |n: &mut usize| {
         *n += 1;
         *n
     };
-    ops.push(format!("reset {}", next(n)));
+    let clone_tok = |rng: &mut Rng| if rng.chance(1, 8) { " on=clone" } else { "" };
+    ops.push(format!("reset {} via={}", next(n), rng.below(2)));
     for _ in 0..len {
         let r = rng.below(100);
         let id = *rng.pick(&ids);
         let key = rng.pick(&keys).clone();
         let mut mutated = false;
+        let oc = clone_tok(rng);
         if r < 14 {
             // insert an absent id (re-inserting a present one is outside the documented contract)
             let absent: Vec<u64> = ids.iter().cloned().filter(|i| !spec.present(*i)).collect();
             if absent.is_empty() {
                 let v = *rng.pick(&ids);
                 spec.remove(v);
-                ops.push(format!("rem {} {}", next(n), v));
+                ops.push(format!("rem {} {}{}", next(n), v, oc));
             } else {
                 let v = *rng.pick(&absent);
                 tag += 1;
                 let beh = match rng.below(100) {
-                    0..=69 => Beh::Ok,
-                    70..=77 => Beh::Disc,
-                    78..=85 => Beh::Full,
-                    86..=92 => Beh::Other,
-                    _ => Beh::Rem(*rng.pick(&ids)),
+                    0..=54 => Beh::Ok,
+                    55..=60 => Beh::Disc,
+                    61..=66 => Beh::Full,
+                    67..=72 => Beh::Other,
+                    73..=76 => Beh::OkDown,
+                    77..=80 => Beh::Plain,
+                    81..=82 => Beh::Slow,
+                    _ if panicky => Beh::Panic(rng.below(3) as u8),
+                    83..=88 => Beh::Rem(*rng.pick(&ids)),
+                    89..=92 => Beh::AliasSelf,
+                    93..=96 => Beh::InsNew,
+                    _ => Beh::Read,
                 };
                 spec.insert(v, tag);
                 behs.insert(tag, beh);
-                ops.push(format!("ins {} {} {} {}", next(n), v, tag, beh.show()));
+                ops.push(format!("ins {} {} {} {}{}", next(n), v, tag, beh.show(), oc));
             }
             mutated = true;
         } else if r < 24 {
             let present = spec.sorted_ids();
             let v = if !present.is_empty() && rng.chance(3, 4) { *rng.pick(&present) } else { id };
             spec.remove(v);
-            ops.push(format!("rem {} {}", next(n), v));
+            ops.push(format!("rem {} {}{}", next(n), v, oc));
             mutated = true;
         } else if r < 60 {
             let present = spec.sorted_ids();
             let v = if !present.is_empty() && rng.chance(5, 6) { *rng.pick(&present) } else { id };
             spec.alias(v, &key);
-            ops.push(format!("alias {} {} {}", next(n), v, key));
+            ops.push(format!("alias {} {} {} via={}{}", next(n), v, key, rng.below(5), oc));
             mutated = true;
         } else if r < 65 {
-            ops.push(format!("get {} {}", next(n), id));
+            ops.push(format!("get {} {}{}", next(n), id, oc));
         } else if r < 73 {
-            ops.push(format!("getby {} {}", next(n), key));
+            ops.push(format!("getby {} {} via={}{}", next(n), key, rng.below(2), oc));
         } else if r < 78 {
-            ops.push(format!("keyfor {} {}", next(n), id));
+            ops.push(format!("keyfor {} {}{}", next(n), id, oc));
         } else if r < 86 {
-            ops.push(format!("aliases {} {}", next(n), id));
+            ops.push(format!("aliases {} {}{}", next(n), id, oc));
         } else if r < 88 {
-            ops.push(format!("len {}", next(n)));
+            ops.push(format!("len {}{}", next(n), oc));
         } else if r < 91 {
             ops.push(format!("dump {}", next(n)));
         } else if r < 95 {
             // the rest of the public surface: snapshot, is_empty, id minting, PeerHandle forwarding, CallContext
             let i = next(n);
-            let m = hex(rng.pick(&["/run_collection", "", "/é"]).as_bytes());
+            let m = hex(gen_path(rng).as_bytes());
             match rng.below(10) {
-                0 => ops.push(format!("peers {}", i)),
-                1 => ops.push(format!("isempty {}", i)),
+                0 => ops.push(format!("peers {}{}", i, oc)),
+                1 => ops.push(format!("isempty {}{}", i, oc)),
                 2 => ops.push(format!("mint {}", i)),
                 3 => ops.push(format!("hconn {} {}", i, id)),
                 4 => ops.push(format!("dbg {} {}", i, id)),
                 5 => ops.push(format!("dbgreg {}", i)),
                 6 => ops.push(format!("ctx {} new {} {}", i, id, m)),
                 7 => ops.push(format!("ctx {} detached {}", i, m)),
-                8 => ops.push(format!("bcastfail {} {} {}", i, rng.pick(&["json", "beve"]), m)),
+                8 => ops.push(format!("bcastfail {} {} {}{}", i, rng.pick(&["json", "beve"]), m, oc)),
                 _ => {
                     let present = spec.sorted_ids();
                     let v = if !present.is_empty() && rng.chance(4, 5) { *rng.pick(&present) } else { id };
-                    let nb = rng.below(4) as usize;
+                    let nb = gen_len(rng, thorough);
                     let (variant, fmt, body) = match rng.below(4) {
                         0 => ("beve", 1, rng.bytes(nb)),
                         1 => ("json", 2, b"{\"a\":1}".to_vec()),
-                        2 => ("utf8", 3, rng.pick(&["", "hi", "é"]).as_bytes().to_vec()),
+                        2 => ("utf8", 3, "é".repeat(nb / 2).into_bytes()),
                         _ => ("raw", rng.below(4), rng.bytes(nb)),
                     };
                     ops.push(format!("hsend {} {} {} {} {} {}", i, v, variant, m, fmt, hex(&body)));
                     if let Some(p) = spec.find(v) {
-                        if let Some(Beh::Rem(x)) = behs.get(&p.tag).copied() {
-                            spec.remove(x);
+                        let t = p.tag;
+                        if !matches!(behs.get(&t), Some(Beh::Panic(_))) && gen_fire(&mut spec, &mut behs, &mut fired, v, t) {
                             mutated = true;
                         }
                     }
                 }
             }
         } else {
-            let path = *rng.pick(&["/state/changed", "", "/a b", "/é", "/x/~1y"]);
+            let path = gen_path(rng);
             let i = next(n);
+            let vi = rng.below(4);
             match rng.below(4) {
                 0 => {
-                    let nb = rng.below(5) as usize;
-                    ops.push(format!("bcast {} raw {} {} {}", i, hex(path.as_bytes()), rng.below(4), hex(&rng.bytes(nb))))
+                    // any format tag with any bytes (also ill-formed UTF-8 under the Utf8 tag)
+                    let nb = gen_len(rng, thorough);
+                    ops.push(format!("bcast {} raw {} {} {} via={}{}", i, hex(path.as_bytes()), rng.below(4), hex(&rng.bytes(nb)), vi, oc))
                 }
-                1 => ops.push(format!("bcast {} utf8 {} 3 {}", i, hex(path.as_bytes()), hex(rng.pick(&["", "hello", "é ü", "line\nbreak"]).as_bytes()))),
+                1 => {
+                    let text = match rng.below(8) {
+                        0 => "é".repeat(gen_len(rng, thorough) / 2),
+                        1 => "x".repeat(gen_len(rng, thorough)),
+                        _ => rng.pick(&["", "hello", "é ü", "line\nbreak", "\u{0}", "\u{feff}bom"]).to_string(),
+                    };
+                    ops.push(format!("bcast {} utf8 {} 3 {} via={}{}", i, hex(path.as_bytes()), hex(text.as_bytes()), vi, oc))
+                }
                 2 => {
-                    let v = gen_json(rng, 2);
-                    ops.push(format!("bcast {} json {} 2 {}", i, hex(path.as_bytes()), hex(&serde_json::to_vec(&v).unwrap())))
+                    let v = if rng.chance(1, 4) { serde_json::Value::String("s".repeat(gen_len(rng, thorough))) } else { gen_json(rng, 2) };
+                    ops.push(format!("bcast {} json {} 2 {} via={}{}", i, hex(path.as_bytes()), hex(&serde_json::to_vec(&v).unwrap()), vi, oc))
                 }
                 _ => {
                     let v = gen_json(rng, 2);
-                    ops.push(format!("bcast {} beve {} 1 {} {}", i, hex(path.as_bytes()), hex(&beve::to_vec(&v).unwrap()), hex(&serde_json::to_vec(&v).unwrap())))
+                    ops.push(format!("bcast {} beve {} 1 {} {}{}", i, hex(path.as_bytes()), hex(&beve::to_vec(&v).unwrap()), hex(&serde_json::to_vec(&v).unwrap()), oc))
                 }
             }
-            // re-entrant sinks of present peers fire
-            let present: Vec<u64> = spec.peers.iter().map(|p| p.tag).collect();
-            for t in present {
-                if let Some(Beh::Rem(x)) = behs.get(&t) {
-                    spec.remove(*x);
+            // re-entrant sinks of present peers fire (unless the broadcast unwinds on a panicking sink)
+            let present: Vec<(u64, u64)> = spec.peers.iter().map(|p| (p.id, p.tag)).collect();
+            if !present.iter().any(|(_, t)| matches!(behs.get(t), Some(Beh::Panic(_)))) {
+                for (pid, t) in present {
+                    gen_fire(&mut spec, &mut behs, &mut fired, pid, t);
                 }
             }
             mutated = true;
@@ -1504,7 +1844,9 @@ fn gen_conc(rng: &mut Rng, idx: usize) -> String {
             continue;
         }
         let ps: Vec<String> = progs.iter().map(|p| codes_to_string(p)).collect();
-        return format!("conc {} {} {}", idx, codes_to_string(&setup), ps.join(" "));
+        // a race that contains a broadcast is run with slow sinks half of the time
+        let op = if ps.iter().any(|p| p.contains('w')) && rng.chance(1, 2) { "concs" } else { "conc" };
+        return format!("{} {} {} {}", op, idx, codes_to_string(&setup), ps.join(" "));
     }
 }
 
@@ -1555,6 +1897,10 @@ fn main() {
         } else {
             ops.push(format!("enum {} 5 0 -", n));
         }
+        // (1b) the same with `broadcast` as an operation, over 2 peers x 1 key (a,b ins; d,e rem; g,j alias; w
+        // broadcast): state that a broadcast leaves behind (a cached snapshot, ...) must not leak into later calls
+        n += 1;
+        ops.push(format!("enum {} {} 0 - abdegjw", n, if thorough { 7 } else { 6 }));
         // (2) state cover: from every reachable abstract state (shortest path), all continuations
         let mut seen: BTreeMap<String, String> = BTreeMap::new();
         let mut frontier: Vec<(String, Spec)> = vec![(String::new(), Spec::default())];
@@ -1589,7 +1935,7 @@ fn main() {
         let (hist, maxlen) = if thorough { (2000, 400) } else { (250, 200) };
         for _ in 0..hist {
             let len = rng.range(10, maxlen) as usize;
-            gen_history(&mut rng, &mut n, len, &mut ops);
+            gen_history(&mut rng, &mut n, len, thorough, &mut ops);
         }
         // (4) concurrent histories
         for t in targeted_conc() {
@@ -1604,6 +1950,10 @@ fn main() {
             if ok_setup && ok_threads {
                 n += 1;
                 ops.push(format!("conc {} {}", n, t));
+                if t.contains('w') {
+                    n += 1;
+                    ops.push(format!("concs {} {}", n, t));
+                }
             }
         }
         for _ in 0..(if thorough { 800 } else { 120 }) {
